@@ -288,7 +288,7 @@ def summarize(case, r):
 
 def run(ctx, model_ok=True):
     import numpy as np
-    n = ctx.n(90, 700)
+    n = ctx.n(80, 600)
     cases = [make_case(ctx.rng) for _ in range(n)]
     results = []
     for c in cases:
